@@ -127,7 +127,7 @@ def run_malformed(out: Outcome) -> None:
     out.count("malformed ops", len(ops))
 
 
-def run_row_corr(env: Env, out: Outcome, n_ops: int) -> None:
+def run_row_corr(env: Env, out: Outcome, n_ops: int, prop: str = "C26") -> None:
     seed = env.rng.randrange(1 << 30)
     r = LDB.row_stream(seed, n_ops)
     for ops in (r["ops"], r["ops2"]):
@@ -141,6 +141,11 @@ def run_row_corr(env: Env, out: Outcome, n_ops: int) -> None:
     for k, v in r["dist"].items():
         out.count("row:" + k, v)
     out.nontrivial(("row", seed))
+    seen = set()
+    for sig, what in LDB.row_monitors(r["records"], prop):
+        if sig not in seen:
+            seen.add(sig)
+            out.violations.append(Violation(sig, what, {"kind": "row_stream", "seed": seed, "n_ops": n_ops}))
 
 
 def run_dbos_standin(out: Outcome, create_row: bool) -> dict:
